@@ -115,6 +115,13 @@ def run(ctx):
             kkey = 'bcj-invalid-consumed' if (hb and why.startswith('input consumed') and base[i] and r and base[i][0] == 9 and r[0] == 9 and base[i][2] == r[2]) else None
             viol.append(dict(kind='decoder-slicing', coder=k, flags=fl, label=lab, mode=m, seed=s, why=why, file=b.hex(), key=kkey,
                              oneshot=list(base[i][:4]) if base[i] else None, sliced=list(r[:4]) if r else None))
+    # the threaded encoder's bytes depend on the output queue handing out buffers of exactly the size asked for (that is how an
+    # incompressible Block is noticed), whatever the queue was used for before: outqueue.c vs the Outq model
+    from props.c07 import outq_correspondence
+    odrv = compile_driver('san', 'drv_outq.c', 'drv_outq', whitebox_of='src/liblzma/common/outqueue.c')
+    ov, oe = outq_correspondence(rng, 200 if ctx.quick() else 3000, odrv, oracle())
+    for v_ in ov: viol.append(dict(kind='outq', config='outqueue.c', a='', b='', why=v_['why'], file=v_['line'].encode().hex()))
+    n_eval += oe
     # ---------------- encoders
     datas = [xzgen.gen_data(rng, n) for n in ([0, 1, 100, 5000, 70000] if ctx.quick() else [0, 1, 2, 100, 5000, 70000, 300000, 1 << 20])]
     datas += [xzgen.gen_data(rng, rng.randrange(2000, 30000)) for _ in range(3 if ctx.quick() else 30)]
